@@ -43,6 +43,7 @@ namespace pika {
             return;
         }
 
+        PIKA_VERIF_POINT("mtx.lock.check", this, 0, 0);
         while (owner_id_ != threads::detail::invalid_thread_id)
         {
             cond_.wait(l, ec);
@@ -85,6 +86,7 @@ namespace pika {
         }
 
         owner_id_ = threads::detail::invalid_thread_id;
+        PIKA_VERIF_POINT("mtx.unlock.cleared", this, 0, 0);
 
         {
             [[maybe_unused]] util::ignore_while_checking il(&l);
